@@ -142,6 +142,8 @@ def run_design(design, steps, out, label="scattered"):
                 exp = ref.value(key)
                 w = len(o)
                 out["evaluations"] += 1
+                if exp is None:
+                    continue          # unspecified (memory read beyond the depth)
                 if (got & ((1 << w) - 1)) != (exp & ((1 << w) - 1)):
                     kind = "split" if isinstance(key, tuple) else "signal"
                     out["violations"].append({"mechanism": f"{label}-value-mismatch:{kind}",
@@ -172,10 +174,12 @@ def run_design(design, steps, out, label="scattered"):
                 if rst:
                     ctx.set(bd.cd.rst, 1)
                 ctx.set(bd.cd.clk, 1)
+                ref.clock_edge(rst)
+                if not compare(n):
+                    return
                 ctx.set(bd.cd.clk, 0)
                 if rst:
                     ctx.set(bd.cd.rst, 0)
-                ref.clock_edge(rst)
             if not compare(n):
                 return
     sim.add_testbench(tb)
